@@ -253,4 +253,7 @@ def run(chk, prog):
     # ---- X8: every stream is seeded by a function of the input --------------------------------------
     n8 = c13_seed.rule_X8(chk, prog)
     chk.floor("X8", n8, 15)
+    # ---- X9: different seeds give different generator states (c13_inject.py) ------------------------------
+    from . import c13_inject
+    chk.floor("X9", c13_inject.rule_X9(chk, u), 1)
     chk.floor("X", len(chk.obligations), 40)
